@@ -557,8 +557,24 @@ class Harness:
                     bad("live_points-view", "expected no live points")
             elif lp is None or not np.array_equal(lp, smp[li]):
                 bad("live_points-view", "live_points != samples[live idx]")
-            if not np.array_equal(s.nested_samples, smp[ni]):
+            nsv = s.nested_samples
+            if not np.array_equal(nsv, smp[ni]):
                 bad("nested_samples-view", "!= samples[nested idx]")
+            # what a caller does with the arrays it was handed is its own
+            # business: writing into them must leave the store unmodified
+            before = np.asarray(s.samples).tobytes()
+            for arr in (lp, nsv):
+                if arr is None or not len(arr):
+                    continue
+                for name in arr.dtype.names:
+                    try:
+                        arr[name][...] = 7
+                    except ValueError:  # read-only: cannot alias harmfully
+                        pass
+            if np.asarray(s.samples).tobytes() != before:
+                bad("handed-out-array-aliases-store",
+                    "writing into the arrays returned by live_points / "
+                    "nested_samples modified the stored samples")
 
 
 def run_ops(case, validate=True):
